@@ -124,10 +124,13 @@ FORMS = ['assign', 'augassign', 'expr', 'return', 'hdr-if', 'hdr-while', 'hdr-fo
          'callarg', 'listcomp', 'binop', 'tuple-assign', 'subscript-store', 'hdr-elif', 'not', 'compare', 'with-item']
 
 LINKS = ['direct', 'direct', 'direct', 'partial', 'lambda', 'listcomp-call', 'dnc', 'map', 'sorted', 'maxkey',
-         'nested-call', 'method', 'kwargs', 'starargs', 'callable-object', 'staticmethod', 'partial-kw', 'filter', 'dictcomp-call']
+         'nested-call', 'method', 'kwargs', 'starargs', 'callable-object', 'staticmethod', 'partial-kw', 'filter', 'dictcomp-call',
+         'wrapped', 'wrapped', 'wrapped', 'wrapped-nonrec']
 # links kept out of the uniform pool (drawn with a small probability): they exercise the shapes on which
 # the pinned code deviates (known findings): a lambda bound on its own line, a function calling itself
-EXTRA_LINKS = ['lambda-var', 'self-rec']
+EXTRA_LINKS = ['lambda-var', 'self-rec', 'tograph', 'decorated']
+# the callee is separately converted: wrapped with its own malt.convert (recursive / non-recursive), or a to_graph output
+WRAP_LINKS = ('wrapped', 'wrapped-nonrec', 'tograph')
 # links after which the callee (and everything below) runs unconverted
 UNCONVERTED_LINKS = {'dnc', 'map', 'sorted', 'maxkey', 'filter'}
 
@@ -177,6 +180,14 @@ class WK(KeyError):
 
 class Never(Exception):
     pass
+
+
+def deco_@TAG@(fn):
+    @functools.wraps(fn)
+    def wrapinner_@TAG@(x):
+        t = x + 0
+        return fn(x)
+    return wrapinner_@TAG@
 
 
 @CTOR@
@@ -402,7 +413,9 @@ def _site(rng, ids, form, E, call_like):
 
 
 def _call_expr(link, callee):
-    if link in ('direct', 'dnc', 'nested-call', 'self-rec'):
+    if link in WRAP_LINKS:
+        return 'LNK%s(x)' % callee[1:]
+    if link in ('direct', 'dnc', 'nested-call', 'self-rec', 'decorated'):
         return '%s(x)' % callee
     if link == 'partial':
         return 'functools.partial(%s, x)()' % callee
@@ -477,21 +490,43 @@ def build(spec, tag=''):
     decorators = {}
     recursive = set()
     rec_opt = spec.get('recursive', True)
+    cur_rec = rec_opt      # recursive flag of the wrapper in whose dynamic extent f_i runs
+    disabled = False       # below a do_not_convert callee every converted_call runs its target as is
+    deco_at = None
+    wraps = []             # [global name, function name, how the harness rebinds it for the converted run]
     for i, fn in enumerate(fns):
         name = 'f%d%s' % (i + 1, T)
         fn_conv[name] = conv
-        if not rec_opt:
-            conv = False          # convert(recursive=False): only the entry point is converted
+        nxt = conv and cur_rec          # a converted caller converts its callees only in recursive mode
         if i + 1 < d:
             link = fn['link']
             if link == 'dnc':
                 decorators['f%d%s' % (i + 2, T)] = '@malt.experimental.do_not_convert'
+            if link == 'decorated' and not any(v.startswith('@deco_') for v in decorators.values()):
+                # the callee is wrapped by a user decorator built with functools.wraps: the wrapper closure carries __wrapped__
+                decorators['f%d%s' % (i + 2, T)] = '@deco_%s' % (tag or 'untagged')
+                deco_at = i
             if link == 'self-rec':
                 recursive.add('f%d%s' % (i + 2, T))
             if link in UNCONVERTED_LINKS or (fn['form'] == 'with-item' and link not in ('nested-call', 'lambda-var')):
                 # call_trees leaves the expressions in `with` items alone: the callee runs unconverted — unless the item
                 # calls a nested def / lambda defined OUTSIDE the item, whose body was converted in place
-                conv = False
+                nxt = False
+            if link == 'dnc':
+                disabled = True
+            if link in WRAP_LINKS:
+                # the callee is bound to a module global which the harness rebinds, for the converted run only, to a
+                # separately converted version of it: its own malt.convert wrapper (recursive or not) or a to_graph output
+                wraps.append(['LNK%d%s' % (i + 2, T), 'f%d%s' % (i + 2, T), link])
+                if link == 'tograph':
+                    nxt, cur_rec = True, not disabled        # already generated code; its callees go through converted_call
+                elif not disabled:
+                    nxt, cur_rec = True, link != 'wrapped-nonrec'
+        if i + 1 < d and decorators.get('f%d%s' % (i + 2, T), '').startswith('@deco_') and fn['link'] == 'decorated' and deco_at == i:
+            fn_conv['wrapinner_%s' % (tag or 'untagged')] = nxt
+        conv = nxt
+    # what the leaf's own callees (helper objects of the failing statement, e.g. BoomCall.__call__) run as
+    fn_conv['*below-leaf*'] = conv
     for i in reversed(range(d)):
         fn = fns[i]
         name = 'f%d%s' % (i + 1, T)
@@ -539,10 +574,12 @@ def build(spec, tag=''):
             body = ['y = 0', 'z = 0'] + lines + ['return y']
         defs.append('\n'.join(head + _indent(body)) + '\n')
     src = PRELUDE.replace('@TAG@', tag or 'untagged') + '\n\n'.join(defs)
+    if wraps:
+        src += '\n\n' + '\n'.join('%s = %s' % (g, f) for g, f, _ in wraps) + '\n'
     if T:
         for m in ('call', 'scall'):
             src = src.replace('def %s(' % m, 'def %s%s(' % (m, T)).replace('.%s(' % m, '.%s%s(' % (m, T))
-    return {'src': src, 'recursive': rec_opt, 'entry': 'f1' + T, 'args': [spec['x']], 'fn_conv': fn_conv}
+    return {'src': src, 'recursive': rec_opt, 'wraps': wraps, 'entry': 'f1' + T, 'args': [spec['x']], 'fn_conv': fn_conv}
 
 
 def describe(spec):
